@@ -363,6 +363,14 @@ class Ctx:
         if res["axioms"]:
             self.cov["trusted_base"].append(f"axioms reported for {gp}: " + ", ".join(sorted(set(res["axioms"]))))
         self.cov.setdefault("generated_models", []).append({"key": key, "files": sorted(files), "theorems": thms})
+        if self.tier == "thorough":
+            # independent re-check of the genprops library (and of everything it depends on, generated files included)
+            with open(os.path.join(GEN, f".{key}.lock"), "w") as lock:
+                fcntl.flock(lock, fcntl.LOCK_EX)
+                rc, out = sh(["coqchk", "-silent", "-o"] + flags + [f"VQGP.{genprops}"], 1800, cwd=COQ)
+            self.cov.setdefault("coqchk_generated", []).append({"lib": f"VQGP.{genprops}", "ok": rc == 0, "tail": out[-600:]})
+            if rc != 0:
+                self.defer_violation(f"genproof/{key}/coqchk", f"coqchk rejects VQGP.{genprops}: {out[-600:]}", {"coqchk_output": out[-3000:]})
         return res
 
     def defer_violation(self, signature, what, replay):
